@@ -11,6 +11,7 @@ import threading as _real_threading
 _RealThread = _real_threading.Thread
 _RealSemaphore = _real_threading.Semaphore
 _TL = _real_threading.local()
+STRAYS = []
 
 
 def check_foreign():
@@ -19,6 +20,12 @@ def check_foreign():
     k = getattr(_TL, "kernel", None)
     if k is not None and (k is not _KERNEL or k.dead):
         raise SimCrash()
+    if k is None and _KERNEL is not None and not _KERNEL.dead and \
+            _real_threading.current_thread() is not _real_threading.main_thread():
+        # a thread the scheduler does not own reached a seam: its interleaving is not ours to
+        # decide, so the run cannot be trusted (reported as a harness failure, never as a pass)
+        STRAYS.append(_real_threading.current_thread().name)
+        raise RuntimeError("SIM-UNSUPPORTED: uncontrolled thread reached a seam")
 
 
 class SimCrash(BaseException):
@@ -40,7 +47,7 @@ class Task:
         self.fn = fn
         self.name = name
         self.daemon = daemon
-        self.go = _RealSemaphore(0)
+        self.go = None
         self.done = False
         self.started = False
         self.exc = None
@@ -98,10 +105,17 @@ class Kernel:
         if proc is None and self.current is not None:
             proc = self.current.proc          # threads belong to their creator's process
         t = Task(self, fn, name, daemon, proc)
-        t.thread = _RealThread(target=t._body, name="sim-" + name, daemon=True)
-        t.started = True
-        self.tasks.append(t)
-        t.thread.start()
+        if self.current is not None:
+            t.last_line = self.current.last_line      # causal tag: work done on behalf of the creator
+        _TL.internal = getattr(_TL, "internal", 0) + 1     # the scheduler's own threads are real
+        try:
+            t.go = _RealSemaphore(0)
+            t.thread = _RealThread(target=t._body, name="sim-" + name, daemon=True)
+            t.started = True
+            self.tasks.append(t)
+            t.thread.start()
+        finally:
+            _TL.internal -= 1
         self.log.ev("spawn", name)
         return t
 
@@ -222,6 +236,10 @@ class Kernel:
             if t.thread is not None:
                 t.thread.join(timeout=60.0)
         leaked = [t.name for t in self.tasks if t.thread is not None and t.thread.is_alive()]
+        if STRAYS:
+            names = ", ".join(STRAYS)
+            del STRAYS[:]
+            raise RuntimeError("SIM-UNSUPPORTED: threads outside the scheduler reached a seam: " + names)
         return leaked
 
 
@@ -250,8 +268,7 @@ class SimThread:
     def start(self):
         k = _KERNEL
         idx = sum(1 for t in k.tasks if t.name.startswith(self.name))
-        self._task = k.spawn(lambda: self._target(*self._args, **self._kwargs),
-                             "%s#%d" % (self.name, idx), self.daemon)
+        self._task = k.spawn(self.run, "%s#%d" % (self.name, idx), self.daemon)
         k.yield_point("thread.start")
 
     def run(self):
@@ -342,12 +359,178 @@ class SimRLock(SimLock):
             self._count = 0
 
 
+class SimCondition:
+    def __init__(self, lock=None):
+        self._lock = lock if lock is not None else SimRLock()
+        self.acquire = self._lock.acquire
+        self.release = self._lock.release
+        self._waiters = []
+
+    def __enter__(self):
+        return self._lock.__enter__()
+
+    def __exit__(self, *a):
+        return self._lock.__exit__(*a)
+
+    def wait(self, timeout=None):
+        lk = self._lock
+        if lk._owner is None:
+            raise RuntimeError("cannot wait on un-acquired lock")
+        token = [False]
+        self._waiters.append(token)
+        saved = (lk._owner, lk._count)
+        lk._owner, lk._count = None, 0
+        try:
+            _KERNEL.block(lambda: token[0], timeout, "condition.wait")
+        finally:
+            if not token[0] and token in self._waiters:
+                self._waiters.remove(token)
+            if lk._owner is not None:
+                _KERNEL.block(lambda: lk._owner is None, None, "condition.reacquire")
+            lk._owner, lk._count = saved
+        return token[0]
+
+    def wait_for(self, predicate, timeout=None):
+        end = None if timeout is None else _KERNEL.clock.now + timeout
+        result = predicate()
+        while not result:
+            if end is not None:
+                left = end - _KERNEL.clock.now
+                if left <= 0:
+                    break
+                self.wait(left)
+            else:
+                self.wait(None)
+            result = predicate()
+        return result
+
+    def notify(self, n=1):
+        for token in self._waiters[:n]:
+            token[0] = True
+        del self._waiters[:n]
+
+    def notify_all(self):
+        self.notify(len(self._waiters))
+
+    notifyAll = notify_all
+
+
+class SimSemaphore:
+    def __init__(self, value=1):
+        if value < 0:
+            raise ValueError("semaphore initial value must be >= 0")
+        self._value = value
+
+    def acquire(self, blocking=True, timeout=None):
+        if not blocking and timeout is not None:
+            raise ValueError("can't specify timeout for non-blocking acquire")
+        if self._value > 0:
+            self._value -= 1
+            return True
+        if not blocking or timeout == 0:
+            return False
+        ok = _KERNEL.block(lambda: self._value > 0, timeout, "semaphore.acquire")
+        if ok:
+            self._value -= 1
+        return ok
+
+    __enter__ = acquire
+
+    def release(self, n=1):
+        self._value += n
+
+    def __exit__(self, *a):
+        self.release()
+
+
+class SimBoundedSemaphore(SimSemaphore):
+    def __init__(self, value=1):
+        super().__init__(value)
+        self._initial = value
+
+    def release(self, n=1):
+        if self._value + n > self._initial:
+            raise ValueError("Semaphore released too many times")
+        self._value += n
+
+
+class SimQueue:
+    """queue.SimpleQueue / queue.Queue under the scheduler.  An item carries the request tag of
+    the task that put it: whoever takes it works on behalf of that request (C12 tagging)."""
+
+    def __init__(self, maxsize=0):
+        import collections
+        self._q = collections.deque()
+        self.maxsize = maxsize
+        self._unfinished = 0
+
+    def put(self, item, block=True, timeout=None):
+        import queue as _q
+        if self.maxsize > 0 and len(self._q) >= self.maxsize:
+            if not block or not _KERNEL.block(lambda: len(self._q) < self.maxsize, timeout, "queue.put"):
+                raise _q.Full
+        me = _KERNEL.current if _KERNEL is not None else None
+        self._q.append((item, me.last_line if me is not None else None))
+        self._unfinished += 1
+
+    def get(self, block=True, timeout=None):
+        import queue as _q
+        if not self._q:
+            if not block or not _KERNEL.block(lambda: len(self._q) > 0, timeout, "queue.get"):
+                raise _q.Empty
+        item, tag = self._q.popleft()
+        me = _KERNEL.current if _KERNEL is not None else None
+        if me is not None and tag is not None:
+            me.last_line = tag
+        return item
+
+    def put_nowait(self, item):
+        return self.put(item, block=False)
+
+    def get_nowait(self):
+        return self.get(block=False)
+
+    def empty(self):
+        return not self._q
+
+    def full(self):
+        return 0 < self.maxsize <= len(self._q)
+
+    def qsize(self):
+        return len(self._q)
+
+    def task_done(self):
+        self._unfinished -= 1
+
+    def join(self):
+        _KERNEL.block(lambda: self._unfinished <= 0, None, "queue.join")
+
+
+class SimTimer(SimThread):
+    def __init__(self, interval, function, args=None, kwargs=None):
+        super().__init__(name="timer")
+        self._cancelled = False
+
+        def body():
+            _KERNEL.sleep(interval)
+            if not self._cancelled:
+                function(*(args or ()), **(kwargs or {}))
+        self._target = body
+
+    def cancel(self):
+        self._cancelled = True
+
+
 class ThreadingShim:
     """What `socketserver.threading` / `comm.server.threading` see."""
     Thread = SimThread
     Event = SimEvent
     Lock = SimLock
     RLock = SimRLock
+    Condition = SimCondition
+    Semaphore = SimSemaphore
+    BoundedSemaphore = SimBoundedSemaphore
+    Timer = SimTimer
 
     @staticmethod
     def current_thread():
